@@ -4,7 +4,7 @@ from __future__ import annotations
 import time, traceback
 import z3
 from .symexec import Interp, Unsupported, Obligation, SAdt
-from .interp5 import Interp5 as Interp2
+from .interp6 import Interp6 as Interp2
 from .speceval import Val, SpecError
 from .calls import spec_bool, spec_term
 from .vc import discharge, Verdict
@@ -20,6 +20,8 @@ def lemma_instances(I, c, env, lemmas):
         lm = lemmas.get(lname)
         if lm is None:
             continue        # theorem not available in this run: the obligation will simply not discharge
+        if any((not p.startswith("@")) and p not in env for p in mapping.values()):
+            continue        # instantiated later by the harness, once the terms it mentions exist
         lenv = {}
         for lv, p in mapping.items():
             lenv[lv] = spec_term(I, p[1:], env, lname) if p.startswith("@") else env[p]
@@ -86,6 +88,7 @@ def _verify_contract(w, src, db, c, lemma_fn=None, timeout_ms=10000, relevance=N
         if c.harness is not None:
             I.q_axioms = []
             I.available_lemmas = set(getattr(lemma_fn, "names", ()))
+            I.lemma_fn = lemma_fn
             if lemma_fn is not None:
                 for ax in lemma_fn(I, {}):
                     (I.q_axioms if z3.is_quantifier(ax) else I.axioms).append(ax)
